@@ -195,13 +195,18 @@ def e2e_forms(d):
         out.append(("eps", tn, dict(lam=0.5, beta=1.0, eps=x)))
     for (tn, x) in scalar_forms(0.25):
         out.append(("eps0.25", tn, dict(lam=0.5, beta=1.0, eps=x)))
+    # no switching cost at all: ties in the cost table are decided the same way in every form
+    for (tn, x) in scalar_forms(0.0):
+        out.append(("beta0", tn, dict(lam=0.5, beta=x, eps=0)))
+    out.append(("beta0", "vector", dict(lam=0.5, beta=np.zeros(d.Tp), eps=0)))
     return out
 
 
 def work_e2e(task):
     from vlib import lib
     lib.load("nojit")
-    (name, seed, inits, entry) = task
+    (name, seed, inits, entry) = task[:4]
+    opts = task[4] if len(task) > 4 else {}
     acc = Acc()
     d0 = ml.get_driver(name, seed)
     joint = d0.joint
@@ -213,14 +218,23 @@ def work_e2e(task):
         if stopped():
             break
         for param, lst in groups.items():
+            if opts.get("params") and param not in opts["params"]:
+                continue
             ref = None
             for (tn, kw) in lst:
                 d = ml.Driver(f"{name}_{param}_{tn}", d0.series, W=d0.W, K=d0.K, lam=kw["lam"], beta=kw["beta"],
                               m=d0.m, eps=kw["eps"], biased=d0.biased, joint=joint)
-                rec = ml.real_run(d, init, 6, (), entry=entry)
+                if opts.get("real_random"):
+                    # the library's own donor draws from the global generator, seeded identically for every form
+                    import random
+                    random.seed(4242)
+                    np.random.seed(4242)
+                rec = ml.real_run(d, init, 6, (), entry=entry, real_random=bool(opts.get("real_random")))
                 acc.n += 1
                 case = {"kind": "e2e", "driver": name, "seed": seed, "init": list(init), "param": param,
-                        "form": tn, "entry": entry}
+                        "form": tn, "entry": entry, "opts": opts}
+                if opts.get("real_random") and rec.error is None and not rec.rng_clean:
+                    acc.count("runs_with_real_donor_draws")
                 if ref is None:
                     ref = (tn, rec)
                     continue
@@ -269,6 +283,15 @@ def run(ctx):
     jinits = ml.all_labellings(dj.Tp, dj.K)
     jinits = jinits[::(4 if ctx.thorough else 16)]
     tasks += [("j3", ctx.seed, jinits[lo:lo + 4], "front") for lo in range(0, len(jinits), 4)]
+    # exact ties under beta = 0 (mirror-image data), every initial labelling
+    dt = ml.get_driver("k2tie", ctx.seed)
+    tinits = ml.all_labellings(dt.Tp, dt.K)
+    tasks += [("k2tie", ctx.seed, tinits[lo:lo + 16], "front", {"params": ["beta0"]}) for lo in range(0, len(tinits), 16)]
+    # runs that repopulate with the library's own random draws (same seed before every form)
+    do = ml.get_driver("k2one", ctx.seed)
+    oinits = [i for i in ml.all_labellings(do.Tp, do.K) if min(i.count(0), i.count(1)) < 2]
+    tasks += [("k2one", ctx.seed, oinits[lo:lo + 2], "front", {"real_random": True, "params": ["beta", "eps", "lambda"]})
+              for lo in range(0, len(oinits), 2)]
     for r in ctx.pmap(work_e2e, tasks):
         ctx.take(r)
     ctx.cov["exhaustive"] = True
@@ -281,8 +304,11 @@ def run(ctx):
         "within one process, scalar vs matrix under a residual-balancing rho callback, the covariance floor 2^-13 as float/np.float64/np.float32/np.float16 through the optimisation phase; (ii) every table over {0,1,3}^(T*K), T*K<=6 (thorough 8): beta in {0,0.5,1,2,5} in every scalar "
         "type and as float64/float32/int64 constant vector: identical labels and cost; (iii) driver k2a, every "
         "2nd (thorough: every) initial labelling, through ticc_labels: lambda=1, beta=2, eps=0 and eps=0.25 each "
-        "in every equivalent form: all result fields bitwise equal; the same through ticc_joint_labels on the 3-series driver j3 (every 16th initial labelling; thorough every 4th). non-trivial = comparisons where both forms "
-        "returned")
+        "in every equivalent form: all result fields bitwise equal; the same through ticc_joint_labels on the 3-series driver j3 (every 16th initial labelling; thorough every 4th). plus beta = 0 in every scalar form and as a zero vector on "
+        "all three drivers and on k2tie (mirror-image data whose cost table holds exact ties), every initial labelling; plus driver "
+        "k2one (clusters empty and are refilled) with the library's own donor draws from the global generator, seeded "
+        "identically before every form, every initial labelling with a cluster under 2 points. non-trivial = comparisons "
+        "where both forms returned")
 
 
 def replay(ctx, case):
@@ -294,4 +320,4 @@ def replay(ctx, case):
     elif k == "label":
         ctx.take(work_label((case["T"], case["K"])))
     else:
-        ctx.take(work_e2e((case["driver"], case["seed"], [tuple(case["init"])], case["entry"])))
+        ctx.take(work_e2e((case["driver"], case["seed"], [tuple(case["init"])], case["entry"], case.get("opts", {}))))
